@@ -554,13 +554,13 @@ func TestCheck(t *testing.T) {
 			"the reference lattice is what a type assertion accepts — identical type, or Implements for an interface target (must / may / must-not); distinct types with the same underlying type (map[string]any vs Vars, []string vs Names) are must-not, unlike reflect's AssignableTo; a connection is judged between the declared types of its two ends, a pass-through node carrying the type eino reports for it in GraphInfo provided that type is the type of a typed neighbour of the node's pass-through component (otherwise the node is transparent)",
 			"only soundness is judged: accepted ⇒ no panic, an ordinary error exactly when a dynamic value is not assignable across a may-connection; rejections of constructions the order-independent (transparent) reference considers well typed are only counted (info_completeness_*)",
 			"a nil interface value has no dynamic type and is not generated; runs whose failure would be legitimate for another reason (input key absent from the map, several non-map chunks to concatenate) are not generated or counted as unjudged",
-		}, cfg.Pick(250, 6000))
+		}, cfg.Pick(350, 6000))
 	defer func() {
 		if err := rep.Flush(); err != nil {
 			t.Fatalf("flush: %v", err)
 		}
 	}()
-	n := int64(cfg.Pick(200, 2400))
+	n := int64(cfg.Pick(280, 2400))
 	rep.Cases(n, func(idx int64, rng *mon.Rand) {
 		runCase(rep, idx, rng)
 	})
